@@ -253,6 +253,7 @@ struct Slot
     u64 *base = 0;     // array / const_ptr memory
     size_t len = 0;    // elements addressable
     u64 *alloc = 0;    // exact mode: malloc block
+    size_t allocwords = 0;
     u64 *idx = 0;      // index array (lanes entries)
     u64 idxcopy[MAXL];
     std::vector<u64> copy; // input snapshot (concatenation of the ranges)
@@ -393,9 +394,12 @@ inline std::string run_case(const Case &c, Counters *cnt, std::string *sample = 
         if (OVL_PRIVATE)
         {
             sl[q].len = extq[q];
-            sl[q].alloc = (u64 *)malloc((extq[q] + 4) * sizeof(u64));
+            const size_t slack = c.pl >= 5 ? 516 : 4; // words the block is longer than the extent (placement room)
+            sl[q].alloc = (u64 *)malloc((extq[q] + slack) * sizeof(u64));
+            sl[q].allocwords = extq[q] + slack;
             sl[q].base = sl[q].alloc;
-            if (c.pl) while ((((uintptr_t)sl[q].base) >> 3) % 4 != (uintptr_t)(c.pl - 1)) sl[q].base++; // the block is 4 words longer than the extent
+            if (c.pl >= 1 && c.pl <= 4) while ((((uintptr_t)sl[q].base) >> 3) % 4 != (uintptr_t)(c.pl - 1)) sl[q].base++;
+            if (c.pl >= 5) while ((((uintptr_t)sl[q].base) & 4095) != (uintptr_t)(4096 - 8 * (c.pl - 4))) sl[q].base++; // 8, 16, 24 bytes before a page boundary
         }
         else
         {
@@ -404,7 +408,8 @@ inline std::string run_case(const Case &c, Counters *cnt, std::string *sample = 
             if (len > BIGN) return "framework\tconfiguration exceeds the arena";
             sl[q].len = len;
             sl[q].base = g_big[q] - len;
-            if (c.pl) while ((((uintptr_t)sl[q].base) >> 3) % 4 != (uintptr_t)(c.pl - 1)) sl[q].base--; // up to three sentinel words of slack before the guard page
+            if (c.pl >= 1 && c.pl <= 4) while ((((uintptr_t)sl[q].base) >> 3) % 4 != (uintptr_t)(c.pl - 1)) sl[q].base--; // up to three sentinel words of slack before the guard page
+            if (c.pl >= 5) while ((((uintptr_t)sl[q].base) & 4095) != (uintptr_t)(4096 - 8 * (c.pl - 4))) sl[q].base--; // 8, 16, 24 bytes before a page boundary (up to 511 words of slack)
         }
         sl[q].rng.push_back({0, sl[q].len});
         A.ptr[q] = sl[q].base;
@@ -517,7 +522,7 @@ inline std::string run_case(const Case &c, Counters *cnt, std::string *sample = 
         const Operand &o = opnd(s, q);
         if (!has_mem(o) || root[q] != q) continue;
         ASAN_POISON_MEMORY_REGION(sl[q].base, sl[q].len * sizeof(u64));
-        if (sl[q].alloc) ASAN_POISON_MEMORY_REGION(sl[q].alloc, (sl[q].len + 4) * sizeof(u64)); // the placement slack as well
+        if (sl[q].alloc) ASAN_POISON_MEMORY_REGION(sl[q].alloc, sl[q].allocwords * sizeof(u64)); // the placement slack as well
     }
     for (int q = 0; q < 3; q++) // designated positions of every slot (slots that share an object may designate different ones)
     {
@@ -534,7 +539,7 @@ inline std::string run_case(const Case &c, Counters *cnt, std::string *sample = 
 
 #if OVL_EXACT
     for (int q = 0; q < 3; q++)
-        if (has_mem(opnd(s, q))) { ASAN_UNPOISON_MEMORY_REGION(sl[q].base, sl[q].len * sizeof(u64)); if (sl[q].alloc && root[q] == q) ASAN_UNPOISON_MEMORY_REGION(sl[q].alloc, (sl[q].len + 4) * sizeof(u64)); }
+        if (has_mem(opnd(s, q))) { ASAN_UNPOISON_MEMORY_REGION(sl[q].base, sl[q].len * sizeof(u64)); if (sl[q].alloc && root[q] == q) ASAN_UNPOISON_MEMORY_REGION(sl[q].alloc, sl[q].allocwords * sizeof(u64)); }
 #endif
 
     // ---- judge
@@ -1012,7 +1017,7 @@ inline void run_place(int si, const char *prop)
     if (!anymem) return;
     Counters cnt;
     long long nv = 0;
-    for (int pl = 1; pl <= 4; pl++)
+    for (int pl = 1; pl <= 7; pl++) // 1..4: address 0, 8, 16, 24 modulo 32; 5..7: 8, 16, 24 bytes before a page boundary
         for (int geo = 0; geo < 2; geo++)
             for (int vp : {0, 3})
             {
